@@ -22,6 +22,10 @@ def _frame(kind, hbh):
         return rc.enc_msg(280, R, 0, hbh, hbh + 7, [oh, orr])
     if kind == "hdr":
         return rc.enc_msg(9999, R, 0, hbh, hbh + 7, [])
+    if kind == "resv":      # well-formed frame with reserved flag bits set, version 3
+        return rc.enc_msg(280, R | 0x0f, 0, hbh, hbh + 7, [oh, orr], version=3)
+    if kind == "resv2":     # answer with E and T and one reserved bit
+        return rc.enc_msg(8_000_000, 0x38, 7, hbh, hbh + 7, [oh])
     if kind == "cer":
         return rc.enc_msg(257, R, 0, hbh, hbh + 7, [oh, orr, rc.addr(257, "10.0.0.2"), rc.u32(266, 1),
                                                     rc.utf8(269, "x", 0), rc.u32(259, 3)])
@@ -53,7 +57,7 @@ def _frame(kind, hbh):
     raise ValueError(kind)
 
 
-WELL = ("dwr", "hdr", "cer", "undec", "big")
+WELL = ("dwr", "hdr", "cer", "undec", "big", "resv", "resv2")
 UNDEC = ("undec", "undec2")
 MAL = tuple(f"len{i}" for i in range(20)) + ("short4", "long4")
 
